@@ -42,7 +42,8 @@ function H(id, beh, fin) {
     return V(beh);
   };
 }
-function NEW(id) { ps[id] = new Promise(function(a, b) { res[id] = a; rej[id] = b; }); reg(id, ps[id]); }
+class Sub extends Promise {}
+function NEW(id, c) { ps[id] = new (c === "S" ? Sub : Promise)(function(a, b) { res[id] = a; rej[id] = b; }); reg(id, ps[id]); }
 '''
 
 
@@ -51,6 +52,7 @@ def print_js(prog):
     out = [PRE]
     np_ = 0
     nh = 0
+    cls = classes(prog)
     for i in range(prog["ngo"]):
         np_ += 1
         out.append("ps[%d] = gp[%d]; res[%d] = gres[%d]; rej[%d] = grej[%d]; reg(%d, ps[%d]);" % (np_, i, np_, i, np_, i, np_, np_))
@@ -60,7 +62,7 @@ def print_js(prog):
             break
         if op == "new":
             np_ += 1
-            out.append("NEW(%d);" % np_)
+            out.append("NEW(%d, %s);" % (np_, json.dumps(o.get("c", "P"))))
         elif op == "resolve":
             out.append("res[%d](V(%s, %d));" % (o["p"], json.dumps(o["x"]), o["p"]))
         elif op == "reject":
@@ -77,38 +79,58 @@ def print_js(prog):
         elif op in ("all", "any", "race", "allSettled"):
             np_ += 1
             out.append("ps[%d] = Promise.%s([%s]); reg(%d, ps[%d]);" % (np_, op, ",".join("ps[%d]" % x for x in o["xs"]), np_, np_))
-            np_ += len(o["xs"])
+            np_ += sum(2 if cls[x] == "S" else 1 for x in o["xs"])
             nh += 2 * len(o["xs"])
         else:
             raise AssertionError(op)
     return "\n".join(out)
 
 
-def visible_ids(prog):
-    """promise ids the script can see (internal derived promises of combinators are not)"""
-    vis = []
+def classes(prog):
+    """{visible promise id: "P" | "S"}: a derived promise has the class of the promise then() / finally() was called on; the
+    combinators are called on %Promise% and wrap every subclass element in a new promise (one more internal id)"""
+    cls = {}
     np_ = 0
     for o in prog["ops"]:
         op = o["op"]
-        if op in ("new", "then", "finally"):
+        if op == "new":
             np_ += 1
-            vis.append(np_)
+            cls[np_] = o.get("c", "P")
+        elif op in ("then", "finally"):
+            np_ += 1
+            cls[np_] = cls[o["p"]]
         elif op in ("all", "any", "race", "allSettled"):
             np_ += 1
-            vis.append(np_)
-            np_ += len(o["xs"])
-    return vis
+            cls[np_] = "P"
+            np_ += sum(2 if cls[x] == "S" else 1 for x in o["xs"])
+    return cls
+
+
+def visible_ids(prog):
+    """promise ids the script can see (internal derived promises of combinators are not)"""
+    return sorted(classes(prog))
+
+
+def count_now(ops):
+    cls = classes({"ops": ops})
+    n = 0
+    for o in ops:
+        if o["op"] in ("new", "then", "finally"):
+            n += 1
+        elif o["op"] in ("all", "any", "race", "allSettled"):
+            n += 1 + sum(2 if cls[x] == "S" else 1 for x in o["xs"])
+    return n
 
 
 def random_program(pid, rnd, maxops=10, np_max=14):
     ngo = rnd.randint(0, 2)
-    ops = [{"op": "new"} for _ in range(ngo)]
+    ops = [{"op": "new", "c": "P"} for _ in range(ngo)]
     np_ = ngo
     exposed = list(range(1, ngo + 1))       # promises whose resolving functions the script / Go holds
     n = rnd.randint(2, maxops)
     for _ in range(n):
         if np_ == 0 or (np_ < np_max and rnd.random() < 0.18):
-            ops.append({"op": "new"})
+            ops.append({"op": "new", "c": rnd.choice(["P", "P", "S"])})
             np_ += 1
             exposed.append(np_)
             continue
@@ -127,14 +149,15 @@ def random_program(pid, rnd, maxops=10, np_max=14):
             ops.append({"op": "then", "p": p, "bf": rnd.choice(behs), "br": rnd.choice(["none", "none", "val", "thr"] + ["P%d" % k for k in vis])})
             np_ += 1
         elif c == "finally" and np_ < np_max:
-            ops.append({"op": "finally", "p": rnd.choice(visible_now(ops)), "b": rnd.choice(["val", "thr", "undef"])})
+            vis = visible_now(ops)
+            ops.append({"op": "finally", "p": rnd.choice(vis), "b": rnd.choice(["val", "thr", "undef"] + ["P%d" % k for k in vis])})
             np_ += 1
         elif c == "comb" and np_ + 4 < np_max:
             vis = visible_now(ops)
             k = rnd.randint(0, 3)
             xs = [rnd.choice(vis) for _ in range(k)]
             ops.append({"op": rnd.choice(["all", "any", "race", "allSettled"]), "xs": xs})
-            np_ += 1 + k
+            np_ = count_now(ops)
     ops.append({"op": "end"})
     # Go-side resolver calls between runs, then another run
     gops = 0
